@@ -24,6 +24,13 @@ struct Call {
     from: Side,
     payload: Vec<u8>,
     consumed: usize,
+    /// send() returned Ok
+    ok: bool,
+    after_close: bool,
+}
+
+fn alerts_on_wire(sess: &Sess, t0: usize, s: Side) -> usize {
+    sess.tap.lock().all[t0..].iter().filter(|(x, d)| *x == s && !d.is_empty() && d[0] == 21).count()
 }
 
 async fn tx_inner(c: &TxCase, sh: &Shared, rec: &CaseRec) -> Check {
@@ -34,8 +41,10 @@ async fn tx_inner(c: &TxCase, sh: &Shared, rec: &CaseRec) -> Check {
     // everything captured from here on was emitted after both sides reported Connected
     let t0 = sess.tap.lock().all.len();
     let before: Vec<(Side, Bytes)> = sess.tap.lock().all.clone();
+    let closer = |s: Side| if s == Side::A { c.close_a } else { c.close_b };
+    let dtls_of = |s: Side| if s == Side::A { sess.pair.a.dtls.clone() } else { sess.pair.b.dtls.clone() };
 
-    // the calls, numbered globally
+    // the calls, numbered globally: first the concurrent tasks, then the post-close calls
     let mut calls: Vec<Call> = Vec::new();
     let mut plan: Vec<Vec<usize>> = Vec::new();
     for t in &c.tasks {
@@ -46,75 +55,150 @@ async fn tx_inner(c: &TxCase, sh: &Shared, rec: &CaseRec) -> Check {
                 from: if t.from_a { Side::A } else { Side::B },
                 payload: pattern(id as u16 + 1, *s as usize),
                 consumed: 0,
+                ok: false,
+                after_close: false,
             });
             ids.push(id);
         }
         plan.push(ids);
     }
-    let start = Arc::new(tokio::sync::Barrier::new(c.tasks.len()));
+    let mut post_plan: Vec<(Side, Vec<usize>)> = Vec::new();
+    for (side, sizes) in [(Side::A, &c.post_a), (Side::B, &c.post_b)] {
+        if !closer(side) || sizes.is_empty() {
+            continue;
+        }
+        let mut ids = Vec::new();
+        for s in sizes {
+            let id = calls.len();
+            calls.push(Call { from: side, payload: pattern(id as u16 + 1, *s as usize), consumed: 0, ok: false, after_close: true });
+            ids.push(id);
+        }
+        post_plan.push((side, ids));
+    }
+
+    // ---- phase 1: concurrent senders (+ close() racing with them)
+    let racers: Vec<Side> = if c.race_close { [Side::A, Side::B].into_iter().filter(|s| closer(*s)).collect() } else { Vec::new() };
+    let start = Arc::new(tokio::sync::Barrier::new(c.tasks.len() + racers.len()));
     let mut handles = Vec::new();
     for (ti, t) in c.tasks.iter().enumerate() {
-        let dtls = if t.from_a { sess.pair.a.dtls.clone() } else { sess.pair.b.dtls.clone() };
-        let payloads: Vec<Bytes> = plan[ti].iter().map(|id| Bytes::from(calls[*id].payload.clone())).collect();
+        let dtls = dtls_of(if t.from_a { Side::A } else { Side::B });
+        let payloads: Vec<(usize, Bytes)> = plan[ti].iter().map(|id| (*id, Bytes::from(calls[*id].payload.clone()))).collect();
         let start = start.clone();
         handles.push(tokio::spawn(async move {
             start.wait().await;
-            let mut errs = Vec::new();
-            for p in payloads {
-                if let Err(e) = dtls.send(p).await {
-                    errs.push(format!("{e}"));
-                }
+            let mut out = Vec::new();
+            for (id, p) in payloads {
+                out.push((id, dtls.send(p).await.map_err(|e| format!("{e}"))));
             }
-            errs
+            out
         }));
     }
+    let mut close_handles = Vec::new();
+    for s in &racers {
+        let dtls = dtls_of(*s);
+        let start = start.clone();
+        close_handles.push(tokio::spawn(async move {
+            start.wait().await;
+            dtls.close();
+        }));
+    }
+    let mut results: Vec<(usize, Result<(), String>)> = Vec::new();
     for h in handles {
-        let errs = h.await.map_err(|e| Fail::new("harness-task-panic", format!("sender task: {e}")))?;
-        if !errs.is_empty() {
-            return Err(Fail::new("send-failed-while-connected", format!("send() returned an error on a Connected transport: {}", errs[0])));
-        }
+        results.extend(h.await.map_err(|e| Fail::new("harness-task-panic", format!("sender task: {e}")))?);
     }
-    let mut expect: HashMap<Side, usize> = HashMap::new();
-    for cl in &calls {
-        *expect.entry(cl.from).or_default() += cl.payload.len();
+    for h in close_handles {
+        h.await.map_err(|e| Fail::new("harness-task-panic", format!("closer task: {e}")))?;
     }
-    // deliveries are awaited before any close(): a closed endpoint stops reading
+
+    // deliveries are awaited before a non-racing close(): a closed endpoint stops reading
     let mut got_from_a: Vec<Vec<u8>> = Vec::new();
     let mut got_from_b: Vec<Vec<u8>> = Vec::new();
-    for (side, rx, got) in [(Side::A, &mut rx_b, &mut got_from_a), (Side::B, &mut rx_a, &mut got_from_b)] {
-        let n = *expect.get(&side).unwrap_or(&0);
-        let deadline = tokio::time::Instant::now() + Duration::from_secs(8);
-        let mut bytes = 0usize;
-        while bytes < n {
-            match tokio::time::timeout_at(deadline, rx.recv()).await {
-                Ok(Some(b)) => {
-                    bytes += b.len();
-                    got.push(b.to_vec());
+    if !c.race_close {
+        for (side, rx, got) in [(Side::A, &mut rx_b, &mut got_from_a), (Side::B, &mut rx_a, &mut got_from_b)] {
+            let n: usize = calls.iter().filter(|cl| cl.from == side && !cl.after_close).map(|cl| cl.payload.len()).sum();
+            let deadline = tokio::time::Instant::now() + Duration::from_secs(8);
+            let mut bytes = 0usize;
+            while bytes < n {
+                match tokio::time::timeout_at(deadline, rx.recv()).await {
+                    Ok(Some(b)) => {
+                        bytes += b.len();
+                        got.push(b.to_vec());
+                    }
+                    _ => break,
                 }
-                _ => break,
+            }
+            if bytes < n {
+                return Err(Fail::timing("delivery-incomplete", format!("peer received {}/{} payload bytes", bytes, n)));
             }
         }
-        if bytes < n {
-            return Err(Fail::timing("delivery-incomplete", format!("peer received {}/{} payload bytes", bytes, n)));
+        if c.close_a {
+            sess.pair.a.dtls.close();
         }
+        if c.close_b {
+            sess.pair.b.dtls.close();
+        }
+    }
+    let closes: std::collections::HashSet<Side> = [Side::A, Side::B].into_iter().filter(|s| closer(*s)).collect();
+
+    // ---- phase 2: the closing side keeps sending (close() leaves its state Connected)
+    let mut post_handles = Vec::new();
+    for (side, ids) in &post_plan {
+        let dtls = dtls_of(*side);
+        let payloads: Vec<(usize, Bytes)> = ids.iter().map(|id| (*id, Bytes::from(calls[*id].payload.clone()))).collect();
+        if c.post_wait_alert {
+            let w = tokio::time::Instant::now();
+            while alerts_on_wire(&sess, t0, *side) == 0 {
+                if w.elapsed() > Duration::from_secs(8) {
+                    return Err(Fail::timing("capture-incomplete", format!("close() of side {:?} put no alert on the wire within 8 s", side)));
+                }
+                tokio::time::sleep(Duration::from_micros(200)).await;
+            }
+        }
+        post_handles.push(tokio::spawn(async move {
+            let mut out = Vec::new();
+            for (id, p) in payloads {
+                out.push((id, dtls.send(p).await.map_err(|e| format!("{e}"))));
+            }
+            out
+        }));
+    }
+    for h in post_handles {
+        results.extend(h.await.map_err(|e| Fail::new("harness-task-panic", format!("post-close sender: {e}")))?);
+    }
+    for (id, r) in results {
+        match r {
+            Ok(()) => calls[id].ok = true,
+            Err(e) => {
+                // only the peer's close_notify may take a side out of Connected
+                if !closer(calls[id].from.other()) {
+                    return Err(Fail::new("send-failed-while-connected", format!("send() call {id} returned an error although the peer never closed: {e}")));
+                }
+                rec.label("tx:send-refused-after-peer-close");
+            }
+        }
+    }
+    if sess.tap.lock().foreign > 0 {
+        rec.label("tx:stray-stun-datagram-ignored");
+    }
+    let mut expect: HashMap<Side, usize> = HashMap::new();
+    for cl in calls.iter().filter(|cl| cl.ok) {
+        *expect.entry(cl.from).or_default() += cl.payload.len();
     }
     let data_from = |s: Side| calls.iter().any(|cl| cl.from == s && !cl.payload.is_empty());
     let close_after_data = (c.close_a && data_from(Side::A)) || (c.close_b && data_from(Side::B));
-    let mut closes: std::collections::HashSet<Side> = std::collections::HashSet::new();
-    if c.close_a {
-        sess.pair.a.dtls.close();
-        closes.insert(Side::A);
-    }
-    if c.close_b {
-        sess.pair.b.dtls.close();
-        closes.insert(Side::B);
-    }
+    let send_after_close = calls.iter().any(|cl| cl.after_close && !cl.payload.is_empty());
     if c.tasks.len() >= 2 || close_after_data {
         rec.nontrivial();
     }
     rec.label(format!("tx:tasks={}", match c.tasks.len() { 1 => "1", 2..=4 => "2-4", 5..=8 => "5-8", _ => "9-16" }));
     if close_after_data {
         rec.label("tx:close-after-data");
+    }
+    if !racers.is_empty() {
+        rec.label("tx:close-racing-with-senders");
+    }
+    if send_after_close {
+        rec.label(if c.post_wait_alert { "tx:send-after-close(alert-on-wire)" } else { "tx:send-after-close(racing-alert)" });
     }
     if c.tasks.iter().any(|t| t.from_a) && c.tasks.iter().any(|t| !t.from_a) {
         rec.label("tx:both-directions");
@@ -233,7 +317,7 @@ async fn tx_inner(c: &TxCase, sh: &Shared, rec: &CaseRec) -> Check {
         }
     }
     for (id, cl) in calls.iter().enumerate() {
-        if cl.consumed != cl.payload.len() {
+        if cl.ok && cl.consumed != cl.payload.len() {
             return Err(Fail::new(
                 "payload-not-fully-transmitted",
                 format!("send() call {id} ({} bytes) returned Ok but only {} bytes appeared on the wire", cl.payload.len(), cl.consumed),
@@ -302,18 +386,158 @@ async fn tx_inner(c: &TxCase, sh: &Shared, rec: &CaseRec) -> Check {
         }
     }
 
-    // ---- the peer's upper layer saw exactly the record plaintexts (secondary, loss-free path)
-    for (side, got) in [(Side::A, &mut got_from_a), (Side::B, &mut got_from_b)] {
+    // ---- the peer's upper layer saw exactly the record plaintexts (secondary, loss-free path);
+    // an endpoint that called close() itself stops reading, there only inclusion can be demanded
+    for (side, rx, got) in [(Side::A, &mut rx_b, &mut got_from_a), (Side::B, &mut rx_a, &mut got_from_b)] {
         let mut want: Vec<Vec<u8>> = per_side_records
             .get(&side)
             .map(|v| v.iter().filter(|(r, _, _)| r.content_type == 23).map(|(_, p, _)| p.clone()).collect())
             .unwrap_or_default();
+        let receiver_closed = closes.contains(&side.other());
+        if receiver_closed {
+            while let Ok(b) = rx.try_recv() {
+                got.push(b.to_vec());
+            }
+        } else {
+            let n: usize = want.iter().map(|p| p.len()).sum();
+            let mut bytes: usize = got.iter().map(|p| p.len()).sum();
+            let deadline = tokio::time::Instant::now() + Duration::from_secs(8);
+            while bytes < n {
+                match tokio::time::timeout_at(deadline, rx.recv()).await {
+                    Ok(Some(b)) => {
+                        bytes += b.len();
+                        got.push(b.to_vec());
+                    }
+                    _ => break,
+                }
+            }
+            if bytes < n {
+                return Err(Fail::timing("delivery-incomplete", format!("peer received {}/{} payload bytes", bytes, n)));
+            }
+        }
         want.sort();
         got.sort();
-        if want != *got {
+        let ok = if receiver_closed {
+            let mut w = want.clone();
+            got.iter().all(|g| match w.iter().position(|x| x == g) {
+                Some(i) => {
+                    w.swap_remove(i);
+                    true
+                }
+                None => false,
+            })
+        } else {
+            want == *got
+        };
+        if !ok {
             return Err(Fail::new("delivered-differs-from-sent-records", "the peer's upper layer received payloads different from the sealed record plaintexts"));
         }
     }
     let _ = &mut sess;
+    Ok(())
+}
+
+pub async fn run_close_mid(c: CloseMidCase, sh: Shared) -> (CaseRec, Check) {
+    let rec = CaseRec::default();
+    let res = close_mid_inner(&c, &sh, &rec).await;
+    (rec, res)
+}
+
+/// close() while the handshake is frozen with keys negotiated: the alert takes its record number
+/// from the handshake context. Everything the closing side sealed must carry distinct (epoch, seq)
+/// / explicit nonces and - when the harness can know the keys - open under its write key.
+async fn close_mid_inner(c: &CloseMidCase, sh: &Shared, rec: &CaseRec) -> Check {
+    use crate::net::rig::state_name;
+    use crate::net::wire::DClass;
+    let client = if c.a_is_client { Side::A } else { Side::B };
+    let server = client.other();
+    let (hold_side, target) = match c.hold {
+        Hold::ServerFinal => (server, client),
+        Hold::ClientFinal => (client, server),
+    };
+    let hold = [(hold_side, DClass::ChangeCipherSpec), (hold_side, DClass::Finished)];
+    let sess = Sess::build(c.a_is_client, &hold, 40, 16, Some((Duration::from_secs(12), Duration::from_secs(40)))).await?;
+    let w = tokio::time::Instant::now();
+    while sess.tap.lock().stash.len() < 2 {
+        if w.elapsed() > Duration::from_secs(8) {
+            return Err(Fail::timing("hold-missed", format!("handshake did not reach the held flight within 8 s ({:?})", c.hold)));
+        }
+        tokio::time::sleep(Duration::from_millis(1)).await;
+    }
+    // ClientFinal: give the server the time to process the ClientKeyExchange that was let through
+    if c.hold == Hold::ClientFinal {
+        tokio::time::sleep(Duration::from_millis(20)).await;
+    }
+    let st = sess.pair.end(target).dtls.get_state();
+    if state_name(&st) != "Handshaking" {
+        return Err(Fail::timing("hold-state-unexpected", format!("target is {} while its peer's final flight is held", state_name(&st))));
+    }
+    let keys = if c.hold == Hold::ServerFinal {
+        let w0 = tokio::time::Instant::now();
+        loop {
+            match sess.pair.end(server).dtls.get_state() {
+                rustrtc::transports::dtls::DtlsState::Connected(k, _) => break Some(k.keys.clone()),
+                _ if w0.elapsed() > Duration::from_secs(5) => return Err(Fail::timing("hold-state-unexpected", "server not Connected 5 s after its final flight")),
+                _ => tokio::time::sleep(Duration::from_micros(200)).await,
+            }
+        }
+    } else {
+        None
+    };
+    let n0 = sess.emitted_count(target);
+    sess.pair.end(target).dtls.close();
+    let w = tokio::time::Instant::now();
+    while sess.emitted_count(target) == n0 {
+        if w.elapsed() > Duration::from_secs(5) {
+            return Err(Fail::timing("capture-incomplete", "close() with negotiated keys put nothing on the wire within 5 s"));
+        }
+        tokio::time::sleep(Duration::from_micros(300)).await;
+    }
+    tokio::time::sleep(Duration::from_millis(10)).await;
+    rec.nontrivial();
+    rec.label(match c.hold {
+        Hold::ServerFinal => "tx:close-midhandshake(client, epoch 1)",
+        Hold::ClientFinal => "tx:close-midhandshake(server, epoch 0)",
+    });
+    let who = if sess.is_client(target) { "client" } else { "server" };
+    let emitted = sess.emitted(target);
+    let mut seen: HashMap<(u16, u64), Vec<u8>> = HashMap::new();
+    let mut alerts = 0;
+    for (i, d) in emitted.iter().enumerate() {
+        for r in wire::dtls_records(d) {
+            let raw = d[r.offset..r.offset + 13 + r.body.len()].to_vec();
+            // records sealed under the session key: every epoch >= 1 record, and whatever close() emitted
+            let sealed = r.epoch >= 1 || i >= n0;
+            if !sealed {
+                continue;
+            }
+            if r.content_type == 21 {
+                alerts += 1;
+            }
+            if let Some(old) = seen.get(&(r.epoch, r.seq)) {
+                if old != &raw {
+                    return Err(Fail::new(
+                        "nonce-reuse",
+                        format!("{who} (closing mid-handshake) sealed two different records with (epoch {}, seq {}): [{}] and [{}]", r.epoch, r.seq, short_hex(old), short_hex(&raw)),
+                    ));
+                }
+            } else {
+                seen.insert((r.epoch, r.seq), raw.clone());
+            }
+            if let (Some(k), true) = (&keys, r.epoch >= 1) {
+                let (key, iv) = write_key(k, sess.is_client(target));
+                if wire::dtls_open(&key, &iv, &r).is_none() {
+                    return Err(Fail::new(
+                        "sent-record-does-not-open-under-negotiated-keys",
+                        format!("{who} emitted a type-{} record (epoch {}, seq {}) that does not authenticate under its write key: {}", r.content_type, r.epoch, r.seq, short_hex(&raw)),
+                    ));
+                }
+                sh.records_sent_checked.fetch_add(1, Ordering::Relaxed);
+            }
+        }
+    }
+    if alerts > 0 {
+        rec.label("tx:close-midhandshake-alert-captured");
+    }
     Ok(())
 }
